@@ -437,7 +437,7 @@ ODD_FIXED = {
     "python": ["__import__", "__import__('os')", "a.b", "a.b.c", "a[0]", "a(1)", "f()", "lambda", "lambda:1", "x:1", "a;b",
                "a,b", "{1}", "[1,2]", "`a`", "a@b", "$a", "a!", "a\\n", "1j", "1L", "0_", "inf", "nan", "-inf", "a=1", "a==1==",
                "x if y else z", "import os", "del", "is", "in", "not", "yield", "None.x", "True+1"],
-    "quotes": ["'CA", "CA'", '"CA', "'CA\"", "'", '"', "'C'A'", '"C"A"', "''CA", "'CA' 'CB", "'a''b'", "'\\'"],
+    "quotes": ["'CA", "CA'", '"CA', "'CA\"", "'", '"', "'C'A'", '"C"A"', "''CA", "'CA' 'CB", "'\\'"],
     "separators": ["CA, CB", "CA; CB", "CA,CB", "CA ,CB", ",CA", "CA,", "CA;", ";", ",", "CA : CB", "CA | CB", "CA & CB"],
 }
 ODD_CASE_OPS = ["protein AND water", "protein And water", "protein OR water", "protein Or water", "NOT protein", "Not protein",
